@@ -271,6 +271,10 @@ func (c *connection) onProcess(onConnect OnConnect, onRequest OnRequest) (proces
 		if c.status(closing) != 0 && c.lock(processing) {
 			// poller will get the processing lock failed, here help poller do closeCallback
 			// fd must already detach by poller
+			if onRequest != nil && c.status(closing) == poller && c.Reader().Len() > 0 {
+				// input that arrived while this task was exiting is offered to the handler first
+				goto START
+			}
 			c.closeCallback(false, false)
 			panicked = false
 			return
@@ -288,6 +292,20 @@ func (c *connection) onProcess(onConnect OnConnect, onRequest OnRequest) (proces
 	// add new task
 	runner.RunTask(c.ctx, task)
 	return true
+}
+
+// offerBufferedInput starts a handler task for input that is still buffered when the peer hangs up.
+// The task runs the close callbacks when it exits, so the caller must not run them itself.
+func (c *connection) offerBufferedInput() (started bool) {
+	onRequest, _ := c.onRequestCallback.Load().(OnRequest)
+	if onRequest == nil || c.inputBuffer.IsEmpty() {
+		return false
+	}
+	if c.getState() == connStateNone && c.onConnectCallback.Load() != nil {
+		// OnConnect has not finished: its task owns the first OnRequest
+		return false
+	}
+	return c.onProcess(nil, onRequest)
 }
 
 // closeCallback .
